@@ -28,7 +28,7 @@ ALL_OPT_SETS = [{k: v for k, v in (("allow_key_edits", a), ("auto_match_keys", b
                                     ("allow_list_edits_when_same_length", d)) if not v}
                 for a in (True, False) for b in (True, False) for c in (True, False) for d in (True, False)]
 
-SCALARS = [0, 1, 2, 10, 12, -1, "a", "ab", "abc", "abd", "xbc", "", True, False, None, 1.5, 2.25,
+SCALARS = [0, 1, 2, 10, 12, -1, -2, "a", "ab", "abc", "abd", "xbc", "", True, False, None, 1.5, 2.25,
            "hello world", "hello wrld", "1", "True", "None", "0", " "]
 KEYS = ["a", "b", "c", "d", "ab", "ac", "zz", "", "k1", "key5"]
 
@@ -92,6 +92,68 @@ def almost(r, x):
     if x is None:
         return r.choice(["", "None", 0, False])
     return x
+
+
+# CPython hashes that collide for unequal JSON values: hash(-1) == hash(-2), hash(True) == hash(1), hash(False) == hash(0)
+COLLIDE = [(-1, -2), (-2, -1), (True, 1), (1, True), (False, 0), (0, False)]      # (a list: True and 1 are ONE dict key)
+
+
+def _ckey(v):
+    return (type(v) is bool, v)
+
+
+def collide(r, x):
+    """(a, b): a copy of x holding at least one of -1 / -2 / true / 1 / false / 0, and the same document with exactly ONE
+    such scalar replaced by the unequal value with the same hash — everything else (keys, sizes, order) identical."""
+    import copy
+    a = copy.deepcopy(x)
+    if not isinstance(a, (list, dict)):
+        a = {"a": a, "b": r.choice([-1, True, 0])}
+    slots = []
+
+    def walk(n):
+        it = list(n.items()) if isinstance(n, dict) else list(enumerate(n))
+        for k, v in it:
+            if isinstance(v, (list, dict)):
+                walk(v)
+            elif isinstance(v, (bool, int)) and any(_ckey(v) == _ckey(c) for c, _ in COLLIDE):
+                slots.append((n, k))
+    walk(a)
+    if not slots:
+        conts = []
+
+        def cw(n):
+            conts.append(n)
+            for v in (n.values() if isinstance(n, dict) else n):
+                if isinstance(v, (list, dict)):
+                    cw(v)
+        cw(a)
+        n = r.choice(conts)
+        v = r.choice([-1, -2, True, 1, False, 0])
+        if isinstance(n, dict):
+            k = r.choice(["a", "b", "c", "zz"])
+            n[k] = v
+        else:
+            k = r.randint(0, len(n))
+            n.insert(k, v)
+        slots = [(n, k)]
+    b = copy.deepcopy(a)
+    # the same slot in the copy: replay the path
+    n, k = r.choice(slots)
+
+    def find(na, nb):
+        if na is n:
+            return nb
+        for kk, v in (na.items() if isinstance(na, dict) else enumerate(na)):
+            if isinstance(v, (list, dict)):
+                got = find(v, nb[kk])
+                if got is not None:
+                    return got
+        return None
+    nb = find(a, b)
+    old = nb[k]
+    nb[k] = next(v for c, v in COLLIDE if _ckey(c) == _ckey(old))
+    return a, b
 
 
 def shuffled(r, x):
@@ -160,6 +222,10 @@ def gen(rng, tier):
     for _ in range(n // 6):
         a = gen_doc(rng)
         cases.append({"f": a, "t": shuffled(rng, a), "opts": rng.choice(OPT_SETS)})
+    # documents that differ in ONE scalar whose replacement has the same hash (-1 / -2, true / 1, false / 0)
+    for _ in range(n // 3):
+        a, b = collide(rng, gen_doc(rng))
+        cases.append({"f": a, "t": b, "opts": rng.choice(ALL_OPT_SETS)})
     return cases
 
 
